@@ -6,7 +6,7 @@ V = os.path.dirname(os.path.abspath(__file__))
 TECH = "symbolic execution of the real Go SSA (gosym, fork of x/tools go/ssa/interp) with branch feasibility and assertions decided by z3; counterexamples replayed natively"
 claimed = {
  "C17": dict(
-  text="Bounded model checking by symbolic execution of the real parse_pdr.go functions: every path of CreatePortRangeCartesianProduct / classification / trivial conversion is executed with both ranges and a probe packet symbolic; the solver decides on each path that the produced rules match exactly the ranges (or that refusal happens exactly for unrepresentable pairs). Complete for all 2^32 ranges per side and all probes for the Exact strategy. The Ternary strategy is covered by an inductive block lemma over the real portMask/maxPort literals for every (block start, range end) and every probe, plus the whole expansion loop for all ranges up to 8 (quick) / 64 (thorough) ports wide.",
+  text="Bounded model checking by symbolic execution of the real parse_pdr.go functions: every path of CreatePortRangeCartesianProduct / classification / trivial conversion is executed with both ranges and a probe packet symbolic; the solver decides on each path that the produced rules match exactly the ranges (or that refusal happens exactly for unrepresentable pairs). Complete for all 2^32 ranges per side and all probes for the Exact strategy. The Ternary strategy is covered by an inductive block lemma over the real portMask/maxPort literals for every (block start, range end) and every probe, plus the whole expansion loop for all ranges up to 8 (quick) / 12 (thorough) ports wide.",
   note="Assumes ranges are not inverted (parsePort refuses them; C08). Ternary ranges wider than the stated width rest on the block lemma plus the four-line loop (continue at block end + 1 while <= high), which is only executed for the bounded widths. Trusts z3, go/ssa's lowering of the source, and the engine's instruction semantics (validated on every run by replaying sampled passing paths natively and comparing observations).",
   ref="DESIGN.md 6.17, 10"),
 }
@@ -50,7 +50,7 @@ claimed.update({
   note="Narrowed: spacing by resp_timeout, the ticker, tryConnectToN4Peers and 'peer dead => sessions removed' are outside (Request.GetResponse is a plan stub under the engine; the native replay runs the real timer code with a peer goroutine).",
   ref="DESIGN.md 6.12"),
  "C13": dict(
-  text="Bounded model checking of both halves. (1) handleDigestReport on a store holding an arbitrary session (1..2 PDRs of either direction, 0..2 FARs with arbitrary Apply Action): nothing is sent for unknown sessions, sessions without downlink PDR or whose downlink FAR does not ask (or does not exist); otherwise exactly one Session Report Request with the CP SEID, a fresh sequence number and the downlink PDR id. (2) The rate limiter NewDownlinkDataNotifier/Notify/shouldNotify over 3 (quick) / 5 (thorough) reports with arbitrary F-SEIDs under a symbolic strictly increasing clock and an arbitrary interval: a first report is always forwarded, two forwarded reports of one session are at least one interval apart, a report is suppressed only within one interval of a forwarded one.",
+  text="Bounded model checking of both halves. (1) handleDigestReport on a store holding an arbitrary session (1..2 PDRs of either direction, 0..2 FARs with arbitrary Apply Action): nothing is sent for unknown sessions, sessions without downlink PDR or whose downlink FAR does not ask (or does not exist); otherwise exactly one Session Report Request with the CP SEID, a fresh sequence number and the downlink PDR id. (2) The rate limiter NewDownlinkDataNotifier/Notify/shouldNotify over 3 (quick) / 4 (thorough) reports with arbitrary F-SEIDs under a symbolic strictly increasing clock and an arbitrary interval: a first report is always forwarded, two forwarded reports of one session are at least one interval apart, a report is suppressed only within one interval of a forwarded one.",
   note="The clock is an input: every time.Now/Since of repository code reads a fresh symbolic instant; the native replay feeds the same instants to the real code through a patched copy of package time in the overlay of the replay build. The UP4 digest loop, the BESS socket reader and node.Serve's dispatch are blocking service loops and are outside. One association.",
   ref="DESIGN.md 6.13, 10"),
  "C14": dict(
@@ -72,7 +72,7 @@ claimed.update({
   note="Serialisability of outcomes, the BESS plug-in's per-call goroutine ordering and crash isolation are NOT claimed; interleavings are not executed (sync.Mutex is assumed to give mutual exclusion).",
   ref="DESIGN.md 6.11, 10"),
  "C15": dict(
-  text="Bounded fault-position model checking: establishment, optional modification and deletion of one session followed by a second session run through the real handlers and UP4 code against the in-harness P4Runtime target with ONE failing Write whose position k is symbolic (1..14 quick / 1..16 thorough, or none) and whose kind is a transport error, INVALID_ARGUMENT or ALREADY_EXISTS; on every path the solver decides that the request is rejected when its write failed, and that counter cells, meter cells, tunnel-peer ids and application ids owned by live entries stay exclusive and are neither leaked nor handed out twice afterwards.",
+  text="Bounded fault-position model checking: establishment, optional modification and deletion of one session followed by a second session run through the real handlers and UP4 code against the in-harness P4Runtime target with ONE failing Write whose position k is symbolic (1..14 quick / 1..16 thorough, or none) and whose kind is a transport error, INVALID_ARGUMENT, NOT_FOUND or ALREADY_EXISTS; on every path the solver decides that the request is rejected when its write failed, and that counter cells, meter cells, tunnel-peer ids and application ids owned by live entries stay exclusive and are neither leaked nor handed out twice afterwards.",
   note="A failing Write applies nothing (P4Runtime batch atomicity as the agent uses it: one update per Write) except ALREADY_EXISTS, which the agent tolerates. Pools shrunk to 6 cells so that exhaustion and reuse are reachable. Two faults in one history are outside.",
   ref="DESIGN.md 6.15, 10"),
  "C16": dict(
